@@ -1,6 +1,6 @@
 (* C03 — compile-time evaluation gives the value the chip would compute. *)
 From Coq Require Import List ZArith Bool String PrimFloat.
-From PV Require Import IC10.Values IC10.Machine IC10.FloatAlg IC10.FloatFacts IC10.Sig Model.Fold Model.FoldProofs Model.Tables.
+From PV Require Import IC10.Values IC10.Machine IC10.FloatAlg IC10.FloatFacts IC10.Sig Model.Fold Model.FoldProofs Model.FoldTree Model.Tables.
 From PVGen Require Import GenOps.
 Import ListNotations.
 Local Open Scope string_scope.
@@ -77,6 +77,18 @@ Proof.
   intros x r. repeat split.
   - exact (fold_not x r). - exact (fold_neg neg_is_zero_minus x r). 
 Qed.
+
+(* whole expression trees (the recursion of is_constant): for every tree over + - * / ** and the six
+   comparisons, of any shape and depth, on any constants, built with the tables read on this run:
+   whenever the compiler folds the tree to r, executing the instructions on the same constants gives r *)
+Theorem C03_arithmetic_trees_fold_to_run_time_value : forall t r,
+  total_tree t = true -> fold_tree gen_binops gen_unops t = Some r -> run_tree gen_binops gen_unops t = Some r.
+Proof. exact arithmetic_trees_fold_to_run_time_value. Qed.
+
+(* ... and for trees over all operators, provided each node's operands are in that operator's domain *)
+Theorem C03_trees_fold_to_run_time_value : forall t r,
+  nodes_agree gen_binops gen_unops t -> fold_tree gen_binops gen_unops t = Some r -> run_tree gen_binops gen_unops t = Some r.
+Proof. exact (fold_tree_is_run_tree gen_binops gen_unops). Qed.
 
 (* non-vacuity: concrete operands in each domain *)
 Example C03_nonvacuous :
